@@ -134,10 +134,10 @@ def _model_entry(name, kwargs, seed):
 
 
 def generate(rng, tier):
-    if rng.random() < 0.06:
+    if rng.random() < 0.08:
         from .. import calib
 
-        scn = calib.gen_calibration(rng, tier, fit_ranges="full", multi_readout_p=0.0, weights_p=0.0, n_targets=(1, 2), islands=(1, 1, 2))
+        scn = calib.gen_calibration(rng, tier, fit_ranges="full", multi_readout_p=0.0, weights_p=0.0, n_targets=(1, 2), islands=(1, 2, 2, 3))
         scn["kind"] = "calibration"
         scn["mode"]["pipeline_seed"] = rng.randrange(1, 2**31)
         scn["pipeline"]["charge_collection"][0]["arguments"]["draws"] = rng.randint(1, 3)
@@ -145,7 +145,7 @@ def generate(rng, tier):
         scn["between"] = rng.choice(["none", "draws", "failed-run"])
         scn["sched"]["policy"] = rng.choice(["fifo", "lifo", "random", "random", "preempt"])
         # the repetition runs under another schedule: thread timing is not part of "the same configuration"
-        scn["sched2"] = dict(scn["sched"], policy=rng.choice(["fifo", "lifo", "random", "preempt"]), sim_seed=rng.randrange(2**31), workers=rng.choice([1, 2, 4, 8]))
+        scn["sched2"] = dict(scn["sched"], policy=rng.choice(["lifo", "lifo", "random", "preempt"]) if scn["sched"]["policy"] != "lifo" else rng.choice(["fifo", "random"]), sim_seed=rng.randrange(2**31), workers=rng.choice([1, 2, 4, 8]))
         return scn
     kind = rng.choice(["model", "model", "pipeline", "pipeline", "pipeline", "own-seeds", "failing", "noseed-model"])
     scn = {"kind": kind, "prior": [[rng.randrange(2**31), rng.randint(0, 40), rng.randint(0, 3)], [rng.randrange(2**31), rng.randint(0, 40), rng.randint(0, 3)]], "between": rng.choice(["none", "draws", "failed-run", "other-run"])}
